@@ -97,3 +97,14 @@ Theorem C03_remove_simplex_id_is_source : forall idx s, Inv s ->
   = remove_simplex_id idx s.
 Proof. exact sc_remove_simplex_id_public_is_source. Qed.
 Print Assumptions C03_remove_simplex_id_is_source.
+
+(* THE SOURCE TIE for remove_simplex_ids_from.  The snapshot `all_ids = set(self._edge.keys())`, the loop over the given ids with its
+   guard (an id that was present at the start and has meanwhile been removed together with a face is skipped) and the call of the
+   translated remove_simplex_id are regenerated from the source on every run; with _supfaces_id as the model has it, running them
+   is the model's remove_simplex_ids_from on every state satisfying the class invariant, for every list of ids *)
+Theorem C03_remove_simplex_ids_from_is_source : forall ids s, Inv s ->
+  run_remove_simplex_ids_from src_sc_remove_ids_guards src_sc_remove_simplex_id_public
+     (fun s idx => match get idx (h_edge s) with Some ms => supfaces_id s ms | None => [] end) ids s
+  = remove_simplex_ids_from ids s.
+Proof. exact sc_remove_simplex_ids_from_is_source. Qed.
+Print Assumptions C03_remove_simplex_ids_from_is_source.
